@@ -44,7 +44,8 @@ GEOM_DIMS.update({i: (2, 3) for i in (19, 20, 21)})
 FIELD_N = {1: 1, 2: 1, 3: 1, 4: 2, 5: 2, 6: 2, 7: 2, 8: 2, 9: 2, 10: 2, 11: 3, 12: 3, 13: 3, 14: 3, 15: 3}
 VECTOR_FIELDS = {2, 3, 7, 8, 9, 10, 13, 14, 15}
 MESH_DIM = dict(line=1, rect=2, prod=2, tri=2, box=3, tet=3, prod3=3, prodm=3)
-PRODUCTS = {'prod': (('X', 1), ('Y', 1)), 'prod3': (('X', 1), ('Y', 1), ('Z', 1)), 'prodm': (('X', 2), ('Z', 1))}
+# (the names of the spaces are deliberately not in alphabetical order: the order of the spaces is the order of the factors)
+PRODUCTS = {'prod': (('X', 1), ('T', 1)), 'prod3': (('Z', 1), ('Y', 1), ('X', 1)), 'prodm': (('X', 2), ('T', 1))}
 STRUCTURED = {'line', 'rect', 'box', 'prod', 'prod3', 'prodm'}
 ACTIONS = ['Refine', 'SetGeom', 'SetField', 'EvalInterior', 'EvalBoundary', 'EvalInterfaces', 'EvalBoundaryField', 'Integrate', 'RefineIntegrals']
 INVARIANTS = ['TypeOK', 'GradIsDerivative', 'SurfGradProjects', 'SurfGradBoundary', 'MeasureIsGram', 'NormalOrthogonal', 'NormalOutward',
@@ -71,18 +72,18 @@ def build_mesh(name, level):
         topo, x0 = mesh.rectilinear([[0, 1], [0, 2], [0, 1, 3]])
     elif name == 'prod':
         tx, gx = mesh.rectilinear([[0, 1, 2]], space='X')
-        ty, gy = mesh.rectilinear([[0, 1, 3]], space='Y')
+        ty, gy = mesh.rectilinear([[0, 1, 3]], space='T')
         topo = tx * ty
         x0 = numpy.stack([gx[0], gy[0]])
     elif name == 'prod3':
-        tx, gx = mesh.rectilinear([[0, 1]], space='X')
+        tx, gx = mesh.rectilinear([[0, 1]], space='Z')
         ty, gy = mesh.rectilinear([[0, 2]], space='Y')
-        tz, gz = mesh.rectilinear([[0, 1, 3]], space='Z')
+        tz, gz = mesh.rectilinear([[0, 1, 3]], space='X')
         topo = tx * ty * tz
         x0 = numpy.stack([gx[0], gy[0], gz[0]])
     elif name == 'prodm':
         tx, gx = mesh.rectilinear([[0, 1, 3], [0, 2]], space='X')
-        tz, gz = mesh.rectilinear([[0, 1]], space='Z')
+        tz, gz = mesh.rectilinear([[0, 1]], space='T')
         topo = tx * tz
         x0 = numpy.concatenate([gx, gz])
     elif name == 'tri':
@@ -164,8 +165,10 @@ def replay_group(item):
     """item = (mesh, level, stage, [snapshots that differ in the field only]); returns dict(fails=[(key, what, data)], points=n, ...)"""
     warnings.simplefilter('ignore')
     name, level, stage, snaps = item
+    import time
     out = dict(fails=[], points=0, values=0, states=len(snaps))
     s0 = snaps[0]
+    t0 = time.process_time()
 
     def fail(op, what, **data):
         key = '{}:{}:{}'.format(op, stage, name)
@@ -191,6 +194,7 @@ def replay_group(item):
             fail('raises-' + type(e).__name__, 'nutils raised {!r} at {}:{}'.format(e, os.path.basename(inner.filename), inner.lineno))
         else:
             raise
+    out['cpu'] = time.process_time() - t0
     return out
 
 
@@ -300,7 +304,7 @@ def _replay(name, level, stage, snaps, out, fail):
         for a, (sp, sl) in enumerate(zip(spaces, spcols)):
             funcs['js', a] = function.J(G[sl], spaces=[sp])
     names = list(funcs)
-    vals = dict(zip(names, exprs.with_timeout(120, smp.eval, [funcs[k] for k in names])))
+    vals = dict(zip(names, exprs.with_timeout(600 if name in PRODUCTS else 240, smp.eval, [funcs[k] for k in names])))
     fx0 = fsmp.eval(x0)
 
     # ---- model rows by key
@@ -482,7 +486,7 @@ def _replay_bfield(name, level, bnd, smp, fsmp, x0, G, fields, snaps, evs, out, 
             funcs['fh', k] = fh
             funcs['gh', k] = function.grad(fh, G)
     names = list(funcs)
-    vals = dict(zip(names, exprs.with_timeout(120, smp.eval, [funcs[k] for k in names])))
+    vals = dict(zip(names, exprs.with_timeout(240, smp.eval, [funcs[k] for k in names])))
     fx0 = fsmp.eval(x0)
     tables = []
     for s in snaps:
@@ -548,8 +552,8 @@ def _replay_integrals(name, topo, x0, G, fields, isvec, snaps, evs, out, fail, n
     for k, f in enumerate(fields):
         ints['int', k] = (function.div(f, G) if isvec[k] else f[0]) * J
     names = list(ints)
-    tot = dict(zip(names, exprs.with_timeout(120, topo.integrate, [ints[k] for k in names], degree=deg)))
-    elw = dict(zip(names, exprs.with_timeout(120, topo.integrate_elementwise, [ints[k] for k in names], degree=deg)))
+    tot = dict(zip(names, exprs.with_timeout(600 if name in PRODUCTS else 240, topo.integrate, [ints[k] for k in names], degree=deg)))
+    elw = dict(zip(names, exprs.with_timeout(600 if name in PRODUCTS else 240, topo.integrate_elementwise, [ints[k] for k in names], degree=deg)))
     bfl = {}
     ifl = {}
     vecs = [k for k in range(len(fields)) if isvec[k]]
@@ -658,7 +662,7 @@ def make_cfg(c, mutant='none', invariants=INVARIANTS, emit=True, table=True):
              '  GeomIds = ' + iset(c['GeomIds']), '  FieldIds = ' + iset(c['FieldIds']),
              '  Lattice = {}'.format(c['Lattice']), '  Lattice3 = {}'.format(c['Lattice3']),
              '  IntegrateOn = ' + sset(c['IntegrateOn']), '  BFieldOn = ' + sset(c['BFieldOn']), '  RefineOnB = ' + sset(c['RefineOnB']),
-             '  ProdGeomIds = ' + iset(c['ProdGeomIds']), '  GmMutant = "{}"'.format(mutant)]
+             '  ProdGeomIds = ' + iset(c['ProdGeomIds']), '  ProdFieldIds = ' + iset(c['ProdFieldIds']), '  GmMutant = "{}"'.format(mutant)]
     lines += ['INVARIANT ' + i for i in invariants]
     if emit:
         lines.append('INVARIANT EmitEval')
@@ -681,10 +685,10 @@ def choose_constants(tier, rng):
         prod3d, sepgeom = rng.choice([('prod3', 22), ('prodm', 23)])
         return dict(MeshNames=['line', 'rect', 'tri', 'prod', 'box', 'tet', prod3d], RefineOn=['line', 'tri'], MaxLevel=1, Refine2On=['line'], GeomIds=sorted(core | extra),
                     FieldIds=sorted(fields), Lattice=2, Lattice3=1, IntegrateOn=['line', 'rect', 'tri', 'tet'],
-                    BFieldOn=['rect', 'tri', 'box', 'tet'], RefineOnB=['tet'], ProdGeomIds=[rng.choice([12, 14]), sepgeom])
-    return dict(MeshNames=['line', 'rect', 'tri', 'prod', 'box', 'tet', 'prod3', 'prodm'], RefineOn=['line', 'rect', 'tri', 'tet', 'box', 'prod'], MaxLevel=1, Refine2On=['line', 'rect'],
-                GeomIds=list(range(1, NGEOMS + 1)), FieldIds=list(range(1, NFIELDS + 1)), Lattice=2, Lattice3=2, IntegrateOn=['line', 'rect', 'tri', 'box', 'tet'],
-                BFieldOn=['rect', 'tri', 'box', 'tet'], RefineOnB=[], ProdGeomIds=list(range(11, 16)) + [22, 23])
+                    BFieldOn=['rect', 'tri', 'box', 'tet'], RefineOnB=['tet'], ProdGeomIds=[rng.choice([12, 14]), sepgeom], ProdFieldIds=sorted(fields))
+    return dict(MeshNames=['line', 'rect', 'tri', 'prod', 'box', 'tet', 'prod3', 'prodm'], RefineOn=['line', 'rect', 'tri', 'tet', 'box'], MaxLevel=1, Refine2On=['line'],
+                GeomIds=list(range(1, NGEOMS + 1)), FieldIds=list(range(1, NFIELDS + 1)), Lattice=2, Lattice3=2, IntegrateOn=['line', 'rect', 'tri', 'box', 'tet', 'prod'],
+                BFieldOn=['rect', 'tri', 'box', 'tet'], RefineOnB=[], ProdGeomIds=[12, 14, 15, 22, 23], ProdFieldIds=[11, 13, 14])
 
 
 def _groups(meshes, quick):
@@ -695,12 +699,12 @@ def _groups(meshes, quick):
 
 # spec mutants: (name, constants, the invariants that must catch it)
 def _mutants(consts, quick):
-    tetb = dict(consts, MeshNames=['tet'], RefineOn=[], Refine2On=[], RefineOnB=['tet'], GeomIds=[12], FieldIds=[13], IntegrateOn=[], BFieldOn=['tet'], ProdGeomIds=[])
-    prod = dict(consts, MeshNames=['prod', 'prod3'], RefineOn=[], Refine2On=[], RefineOnB=[], GeomIds=[6], FieldIds=[7, 13], IntegrateOn=[], BFieldOn=[], ProdGeomIds=[12])
+    tetb = dict(consts, MeshNames=['tet'], RefineOn=[], Refine2On=[], RefineOnB=['tet'], GeomIds=[12], FieldIds=[13], IntegrateOn=[], BFieldOn=['tet'], ProdGeomIds=[], ProdFieldIds=[])
+    prod = dict(consts, MeshNames=['prod', 'prod3'], RefineOn=[], Refine2On=[], RefineOnB=[], GeomIds=[6], FieldIds=[7], IntegrateOn=[], BFieldOn=[], ProdGeomIds=[12], ProdFieldIds=[13])
     out = [('diag-gram', tetb, ['BoundaryFieldTangential'], {'BoundaryFieldTangential'}),
            ('same-block', prod, ['ProductGradient'], {'ProductGradient'})]
     if not quick:
-        small = dict(consts, MeshNames=['rect', 'tri'], RefineOn=['tri'], Refine2On=[], RefineOnB=[], GeomIds=[6, 8], FieldIds=[7], IntegrateOn=['rect', 'tri'], BFieldOn=['tri'], ProdGeomIds=[])
+        small = dict(consts, MeshNames=['rect', 'tri'], RefineOn=['tri'], Refine2On=[], RefineOnB=[], GeomIds=[6, 8], FieldIds=[7], IntegrateOn=['rect', 'tri'], BFieldOn=['tri'], ProdGeomIds=[], ProdFieldIds=[])
         out += [('inv-transpose', small, INVARIANTS, {'GradIsDerivative', 'SurfGradProjects', 'NormalRoutes', 'PerSpace'}),
                 ('normal-inward', small, INVARIANTS, {'NormalOutward', 'NormalRoutes'}),
                 ('no-measure', small, INVARIANTS, {'DivTheoremElem', 'DivTheoremMesh'}),
@@ -798,7 +802,7 @@ def run(rep):
     items = [(k[0], k[1], k[3], sorted(v, key=lambda s: s['field'])) for k, v in sorted(groups.items())]
     # heavy groups first
     items.sort(key=lambda it: -sum(len(s['rows']) for s in it[3]) * (MESH_DIM[it[0]] ** 2))
-    outs = exprs.pmap(replay_group, items, nproc=6 if quick else 8, chunksize=1)
+    outs = exprs.pmap(replay_group, items, nproc=6 if quick else 12, chunksize=1)
     rep.lap('replayed')
     for it, o in zip(items, outs):
         if 'harness_error' in o:
@@ -811,6 +815,10 @@ def run(rep):
         if not o['fails']:
             rep.traces += o['states']
     rep.extra['states_replayed'] = len(snaps)
+    # cost accounting that does not depend on the load of the machine
+    rep.extra['replay_cpu_s'] = round(sum(o.get('cpu', 0.) for o in outs), 1)
+    rep.extra['replay_cpu_by_mesh'] = {m: round(sum(o.get('cpu', 0.) for it, o in zip(items, outs) if it[0] == m), 1) for m in sorted({it[0] for it in items})}
+    rep.extra['tlc_wall_s'] = [round(r.wall, 1) for r in results]
     rep.extra['points_compared'] = sum(o.get('points', 0) for o in outs)
     rep.extra['values_compared'] = sum(o.get('values', 0) for o in outs)
     rep.extra['by_stage'] = {st: sum(1 for s in snaps if s['stage'] == st) for st in ('interior', 'boundary', 'interfaces', 'bfield', 'integrals')}
